@@ -47,6 +47,22 @@ def run(tier='quick'):
     prog = program.load()
     chk = Check('C13', tier)
     chk.units = len(prog.tus)
+    Y9 = chk.rule('Y9', 'detection reads the library every time: no process-wide memory of what was detected (no mutable '
+                        'namespace-scope variable, no assigned or parameter-initialised function-local static) - a memo keyed '
+                        'on the file name and the schema cookie is not invalidated by an UPDATE of the Information row '
+                        '(rule N1 of C10)', floor=1)
+    from . import c10 as _c10
+    _c10.no_process_state(prog, chk, Y9)
+    try:
+        return _run_rules(prog, chk, tier)
+    except AnalysisBroken as e:
+        # a rule could not be decided on this form of the code: exit 2 - unless a rule that was decided reports a
+        # violation, which stands on its own
+        chk.fail_broken(str(e))
+        return chk.finish('finite evaluation aborted: %s' % e)
+
+
+def _run_rules(prog, chk, tier):
     Y1 = chk.rule('Y1', 'detect_schema maps each supported version triple to its own enumerator and '
                         'every other triple in the surrounding box to throw unsupported_database; the '
                         'three Information columns feed major/minor/patch in that order', floor=200)
